@@ -2,7 +2,7 @@
 
 UPSERT_FIXED_LOOPS = {
     "1": {"kw": "for", "spec": """                    invariant
-                        r1g == partition.records@, values_of(r1g, itv__.seq()),
+                        r1g == partition.records@, values_of(r1g, itv__.seq()), itv__.seq().len() > 0,
                         inst(new_next_expiry) <= inst(expiry),
                         forall|j: int, i: int| #![trigger itv__.seq()[j]@[i]] 0 <= j < itv__.index@ && 0 <= i < itv__.seq()[j]@.len() ==> inst(new_next_expiry) <= inst(itv__.seq()[j]@[i].1),
                         new_next_expiry == expiry || exists|j: int, i: int| 0 <= j < itv__.index@ && 0 <= i < itv__.seq()[j]@.len() && new_next_expiry == #[trigger] itv__.seq()[j]@[i].1,
@@ -44,7 +44,7 @@ proof {
 assert(jdx__ + 1 == itv__.seq().len() ==> ne_lower(r1g, new_next_expiry)) by {
     if jdx__ + 1 == itv__.seq().len() {
         assert forall|k: K2, i: int| #[trigger] has_tuple(r1g, k, i) implies inst(new_next_expiry) <= inst(r1g[k]@[i].1) by {
-            let j = choose|j: int| 0 <= j < itv__.seq().len() && *#[trigger] itv__.seq()[j] == r1g[k];
+            let j = lemma_values_of_key(r1g, itv__.seq(), k);
             assert(itv__.seq()[j]@[i] == r1g[k]@[i]);
         }
     }
@@ -52,7 +52,7 @@ assert(jdx__ + 1 == itv__.seq().len() ==> ne_lower(r1g, new_next_expiry)) by {
 assert(jdx__ + 1 == itv__.seq().len() && new_next_expiry != expiry ==> ne_attained(r1g, new_next_expiry)) by {
     if jdx__ + 1 == itv__.seq().len() && new_next_expiry != expiry {
         let (j, i) = choose|j: int, i: int| 0 <= j < jdx__ + 1 && 0 <= i < itv__.seq()[j]@.len() && new_next_expiry == #[trigger] itv__.seq()[j]@[i].1;
-        let k = choose|k: K2| r1g.contains_key(k) && #[trigger] r1g[k] == *itv__.seq()[j];
+        let k = lemma_values_of_index(r1g, itv__.seq(), j);
         assert(has_tuple(r1g, k, i));
     }
 }"""},
